@@ -10,8 +10,9 @@
   * The blake2b-derived suffix is the PARAMETER `Env.sfx` (no hash in Lean, no axiom).
   * `json.dumps` / `json.loads` are the PARAMETERS `Env.enc` / `Env.dec` (`dec s = none` is a
     `ValueError`); their round-trip law is a hypothesis of the theorems that need it.
-  * A Multi storage is the flat list of its leaves (a Multi of Multis behaves as its flattening:
-    every operation is a left-to-right fold / first-found read).
+  * Multi storages are trees (`STree` / `DTree`, mirroring the recursion of the real classes); the
+    flat-list operations (`store`, `fetch`, … over `Storage = List Leaf`) are what the lemmas reason
+    about, and `Props.tree_ops_flat` proves that a tree behaves as the flat list of its leaves.
 -/
 import Kopf.Base.J
 import Kopf.Base.Merge
